@@ -22,6 +22,11 @@ import traceback
 from fractions import Fraction as Fr
 
 ROOT = os.path.dirname(os.path.dirname(os.path.abspath(__file__)))
+try:
+  from absl import logging as _absl_logging
+  _absl_logging.set_verbosity(_absl_logging.ERROR)
+except ImportError:
+  pass
 PY = os.path.join(ROOT, '.venv', 'bin', 'python')
 MARGINS = [Fr(1), Fr(1, 100), Fr(1, 10000), Fr(1, 1000000)]
 
@@ -394,8 +399,8 @@ def _bind_native_out(fresh, native, env):
   raise TypeError('cannot bind native output to %r' % (fresh,))
 
 
-def replay_contract_goal(pm, case_name, cfg, model, tol=1e-7):
-  """Replays a counter-model on the real code. Returns dict(desc, native, failing=[clauses])."""
+def _replay_prepare(pm, case_name, cfg, model):
+  """Descriptor for running the real function on the counter-model."""
   from . import expr as E, harness as H, ctx as C
   E.reset()
   case = pm.CASES[case_name]
@@ -408,10 +413,25 @@ def replay_contract_goal(pm, case_name, cfg, model, tol=1e-7):
   with C.use(c):
     case.setup(cfg, c)
     args, kw = case.build(cfg)
-    desc = describe_call(ct, args, kw, env)
-    nat = run_native([desc])[0]
-    if 'error' in nat:
-      return {'desc': desc, 'native': nat, 'failing': ['raised ' + nat['error']], 'raised': True}
+    return describe_call(ct, args, kw, env)
+
+
+def _replay_evaluate(pm, case_name, cfg, model, desc, nat, tol=1e-7):
+  """Evaluates every contract clause on the REAL output (fresh output symbols bound to it)."""
+  from . import expr as E, harness as H, ctx as C
+  if 'error' in nat:
+    return {'desc': desc, 'native': nat, 'failing': ['raised ' + nat['error']], 'raised': True}
+  E.reset()
+  case = pm.CASES[case_name]
+  ct = H.REGISTRY[case.contract_key]
+  c = C.Ctx()
+  env = _Env()
+  for k, v in (model or {}).items():
+    if v is not None:
+      env[k] = float(Fr(v))
+  with C.use(c):
+    case.setup(cfg, c)
+    args, kw = case.build(cfg)
     fresh = ct.fresh_out(*args, **kw)
     _bind_native_out(fresh, nat['ok'], env)
     failing = []
@@ -421,6 +441,12 @@ def replay_contract_goal(pm, case_name, cfg, model, tol=1e-7):
       if not b.eval(env, None, tol * scale):
         failing.append(name)
   return {'desc': desc, 'native': nat, 'failing': failing, 'pre_holds': pre_ok}
+
+
+def replay_contract_goal(pm, case_name, cfg, model, tol=1e-7):
+  desc = _replay_prepare(pm, case_name, cfg, model)
+  nat = run_native([desc])[0]
+  return _replay_evaluate(pm, case_name, cfg, model, desc, nat, tol)
 
 
 # --------------------------------------------------------------------- main side
@@ -452,8 +478,8 @@ def matches_known(k, g, cfg):
     try:
       if not eval(k['when'], {'__builtins__': {'any': any, 'all': all, 'len': len, 'set': set,
                                                'bool': bool, 'max': max, 'min': min,
-                                               'sum': sum, 'abs': abs, 'tuple': tuple, 'list': list}},
-                  {'cfg': cfg}):  # pylint: disable=eval-used
+                                               'sum': sum, 'abs': abs, 'tuple': tuple, 'list': list},
+                            'cfg': cfg}):  # pylint: disable=eval-used
         return False
     except Exception:  # pylint: disable=broad-except
       return False
@@ -541,19 +567,39 @@ def conclude(pm, tier, seed, results, t0, extra=None):
   known_hits = collections.OrderedDict()
   os.makedirs(os.path.join(ROOT, 'replays', prop_id), exist_ok=True)
   # group: one replay per (case, cfg, model)
+  # phase 1: descriptors; phase 2: one native process; phase 3: evaluate clauses on real output
+  prepared = []
+  for g in refuted:
+    case = pm.CASES[g['_case']]
+    g['replay'] = None
+    try:
+      if case.contract_key is not None:
+        prepared.append((g, _replay_prepare(pm, g['_case'], g['_cfg'], g.get('model'))))
+      elif hasattr(case, 'replay'):
+        g['replay'] = case.replay(g['_cfg'], g.get('model'), g)
+    except Exception as e:  # pylint: disable=broad-except
+      g['replay'] = {'error': '%s: %s' % (type(e).__name__, e), 'trace': traceback.format_exc()[-2000:]}
+  uniq = {}
+  for g, d in prepared:
+    uniq.setdefault(json.dumps(d, sort_keys=True, default=str), d)
+  keys = list(uniq)
+  try:
+    nats = dict(zip(keys, run_native([uniq[k] for k in keys]))) if keys else {}
+  except Exception as e:  # pylint: disable=broad-except
+    nats = {}
+    errors.append({'case': 'replay', 'cfg': {}, 'error': 'native replay failed to run: %s' % e})
+  for g, d in prepared:
+    k = json.dumps(d, sort_keys=True, default=str)
+    if k in nats:
+      try:
+        g['replay'] = _replay_evaluate(pm, g['_case'], g['_cfg'], g.get('model'), d, nats[k])
+      except Exception as e:  # pylint: disable=broad-except
+        g['replay'] = {'error': '%s: %s' % (type(e).__name__, e),
+                       'trace': traceback.format_exc()[-2000:]}
   for g in refuted:
     cfg = g['_cfg']
     kn = [k for k in known if matches_known(k, g, cfg)]
-    rep = None
-    case = pm.CASES[g['_case']]
-    try:
-      if case.contract_key is not None:
-        rep = replay_contract_goal(pm, g['_case'], cfg, g.get('model'))
-      elif hasattr(case, 'replay'):
-        rep = case.replay(cfg, g.get('model'), g)
-    except Exception as e:  # pylint: disable=broad-except
-      rep = {'error': '%s: %s' % (type(e).__name__, e), 'trace': traceback.format_exc()[-2000:]}
-    g['replay'] = rep
+    rep = g['replay']
     confirmed = bool(rep and rep.get('failing'))
     g['confirmed'] = confirmed
     if kn:
